@@ -79,6 +79,12 @@ class CaseInsensitiveDict(abcMutableMapping):
             else k.lower(): k
             for k in self._data
         }
+        self._drop_shadowed_keys()
+
+    def _drop_shadowed_keys(self) -> None:
+        """Drop keys which differ only by case from a later key."""
+        if len(self._case_map) != len(self._data):
+            self._data = {key: self._data[key] for key in self._case_map.values()}
 
     def copy(self) -> "CaseInsensitiveDict":
         """Copy a CaseInsensitiveDict.
@@ -101,6 +107,7 @@ class CaseInsensitiveDict(abcMutableMapping):
         _combined = CaseInsensitiveDict.__new__(CaseInsensitiveDict)
         _combined._data = {**self._data, **other._data}
         _combined._case_map = {**self._case_map, **other._case_map}
+        _combined._drop_shadowed_keys()
         return _combined
 
     def combine_lower_dict(
@@ -115,6 +122,7 @@ class CaseInsensitiveDict(abcMutableMapping):
         _combined = CaseInsensitiveDict.__new__(CaseInsensitiveDict)
         _combined._data = {**self._data, **lower_dict}  # type: ignore[dict-item]
         _combined._case_map = {**self._case_map, **{k: k for k in lower_dict}}
+        _combined._drop_shadowed_keys()
         return _combined
 
     def case_map(self) -> Dict[str, str]:
@@ -146,6 +154,7 @@ class CaseInsensitiveDict(abcMutableMapping):
                 else k.lower(): k
                 for k in self._data
             }
+            self._drop_shadowed_keys()
 
     def del_lower(self, lower_key: str) -> None:
         """Delete a lower case key."""
